@@ -2,7 +2,7 @@
 import ast
 import re
 from ..model import own_nodes, AnalysisError
-from ..paths import ctext, factmap, call_text, returns, must_call
+from ..paths import ctext, factmap, call_text, returns, must_call, cf
 from ..defuse import closed_text
 from ..escape import Escape
 
@@ -93,6 +93,45 @@ def converter_interval(P, u, limits=None):
                         return iv
         return None
     return (lo, hi, False, var)
+
+
+def running_maximum(u):
+    """get_best_pattern written as a running maximum: `for p in patterns: m = re.search(f'({p})', name)`;
+    `if m and (perf is None or len(m.group()) > len(perf)): best, perf = p, m.group()`; `return best` - strict comparison,
+    so the first pattern wins a tie as with max()."""
+    fm = factmap(u)
+    for l in own_nodes(u.node):
+        if not (isinstance(l, ast.For) and ast.unparse(l.iter) == 'patterns' and isinstance(l.target, ast.Name)):
+            continue
+        p = l.target.id
+        srch = "re.search(f'({%s})', name)" % p
+        for a in ast.walk(l):
+            if not (isinstance(a, ast.Assign) and isinstance(a.targets[0], ast.Tuple) and isinstance(a.value, ast.Tuple)
+                    and len(a.targets[0].elts) == 2 == len(a.value.elts) and
+                    all(isinstance(x, ast.Name) for x in a.targets[0].elts)):
+                continue
+            best, perf = (x.id for x in a.targets[0].elts)
+            if ast.unparse(a.value.elts[0]) != p:
+                continue
+            cap_closed = closed_text(u, a.value.elts[1])
+            cap = ast.unparse(a.value.elts[1])
+            if cap_closed.replace('each(patterns)', p) != srch + '.group()':
+                continue
+            facts = {(f[0], f[1]) for f in fm.at(a)}
+            m_var = cap[:-len('.group()')]
+            strict = {cf(t)[0] for t in ('len(%s) > len(%s)' % (cap, perf), '%s is None or len(%s) > len(%s)' % (perf, cap, perf),
+                                        'not %s or len(%s) > len(%s)' % (perf, cap, perf))}
+            if (m_var, True) not in facts or not any(f[1] and cf(f[0])[0] in strict for f in facts):
+                continue
+            # the search may stop early only once the whole name is captured (nothing can be longer)
+            whole = {cf(t)[0] for t in ('len(%s) == len(name)' % perf, 'len(%s) >= len(name)' % perf,
+                                        'len(%s) == len(name)' % cap, '%s == name' % perf)}
+            if not all(any(f[1] and cf(f[0])[0] in whole for f in fm.at(b)) for b in ast.walk(l) if isinstance(b, ast.Break)):
+                continue
+            rets = [v for v, f, n in returns(u) if v is not None and not (isinstance(v, ast.Constant) and v.value is None)]
+            if len(rets) == 1 and isinstance(rets[0], ast.Name) and rets[0].id == best:
+                return True
+    return False
 
 
 def rule_check_options(P, R, r6):
@@ -268,8 +307,11 @@ def run(P, R):
             and isinstance(a.targets[0], ast.Tuple) and isinstance(a.targets[0].elts[0], ast.Name)]
     ok = ok and len(rets) == 1 and (closed_text(u, rets[0]) == closed_text(u, mx[0]) + '[0]' or
                                     isinstance(rets[0], ast.Name) and best == [rets[0].id])
+    if not ok:
+        ok = running_maximum(u)
     R.check(r2, ok, 'the best pattern is the one with the longest captured text', 'best-pattern|max-len', u.loc(),
-            'get_best_pattern does not select max(matching_patterns, key=len(captured text))')
+            'get_best_pattern does not select max(matching_patterns, key=len(captured text)) (nor keeps a running maximum '
+            'with a strict comparison of the captured lengths)')
     fm = factmap(u)
     rs = [c for c in own_nodes(u.node) if isinstance(c, ast.Call) and call_text(c) == 're.search']
     ok = len(rs) == 1 and any('error' in h for hs in fm.handlers.get(id(rs[0]), ()) for h in hs)
